@@ -407,6 +407,39 @@ fn explore_copy_move(ctx: &Ctx, cnt: &Cnt, r: &Reach, p: ElementType) {
             let _ = pe.remove_sub_element(e);
         }
     }
+    // moves within the same parent: two children of one (repeatable) kind followed by / preceded by a child of another kind;
+    // a successful move to a position must leave the children in specification order
+    for &(rep, rep_named) in &cands {
+        for &(other, other_named) in &cands {
+            if other == rep {
+                continue;
+            }
+            let Ok((m2, f2, pe2)) = build_chain(path, v) else { continue };
+            let (Ok(a), Ok(_b), Ok(_o)) = (create(&pe2, rep, rep_named, None, 31), create(&pe2, rep, rep_named, None, 32), create(&pe2, other, other_named, None, 33)) else { continue };
+            let n_children = pe2.content_item_count();
+            for pos in 0..=n_children {
+                cnt.attempts.fetch_add(1, Ordering::Relaxed);
+                let before = child_names(&pe2);
+                let res = guarded(|| pe2.move_element_here_at(&a, pos));
+                let after = child_names(&pe2);
+                let w = |extra: Value| json!({"version": format!("{v:?}"), "parent": pe2.element_name().to_str(), "children_before": before.iter().map(|n| n.to_str()).collect::<Vec<_>>(), "children_after": after.iter().map(|n| n.to_str()).collect::<Vec<_>>(), "op": "move within the parent", "element": rep.to_str(), "position": pos, "extra": extra});
+                match res {
+                    Err(msg) => ctx.violation(format!("panic|move_at(same parent)|{}", last_panic_loc()), w(json!({"msg": msg}))),
+                    Ok(Ok(_)) => {
+                        if !valid_children(p, v, &after) {
+                            ctx.violation("move_at(same parent)|succeeds-and-breaks-specification-order", w(json!({})));
+                        }
+                        check_reload(ctx, cnt, &m2, &f2, v, &|| w(json!("after a move within the parent")));
+                    }
+                    Ok(Err(_)) => {
+                        if after != before {
+                            ctx.violation("move_at(same parent)|fails-but-changes-the-order", w(json!({})));
+                        }
+                    }
+                }
+            }
+        }
+    }
 }
 
 fn candidate_values(spec: &'static CharacterDataSpec, v: AutosarVersion) -> Vec<CharacterData> {
